@@ -6,7 +6,7 @@ import json
 STATE_NAME = {0: 'STOPPED', 10: 'STARTING', 20: 'RUNNING', 30: 'BACKOFF', 40: 'STOPPING',
               100: 'EXITED', 200: 'FATAL', 1000: 'UNKNOWN'}
 AR = {0: 'ARNever', 1: 'ARUnexpected', 2: 'ARAlways'}
-CMDK = {0: 'CmdOk', 1: 'CmdNotFound', 2: 'CmdNotExec', 3: 'CmdNotExec', 4: 'CmdNotExec'}   # 3: no permission, 4: a directory
+CMDK = {0: 'CmdOk', 1: 'CmdNotFound', 2: 'CmdNotExec', 3: 'CmdNotExec', 4: 'CmdNotExec', 5: 'CmdOk'}   # 3: no permission, 4: a directory
 
 
 def z(n):
@@ -212,7 +212,7 @@ def random_script(rng, U=2, nprocs=None, maxlen=30, hostile=0.15, shutdown=0.25,
             priority=rng.choice([1, 5, 5, 999]), autostart=rng.choice([0, 1, 1]),
             autorestart=rng.choice([0, 1, 2]), exitcodes=rng.choice([[0], [0, 2], [], [1]]),
             stopasgroup=rng.choice([0, 0, 1]), killasgroup=rng.choice([0, 1]),
-            cmd=rng.choice([0, 0, 0, 0, 0, 0, 0, 1, 2, 3, 4]), group=rng.randrange(ng)))
+            cmd=rng.choice([0, 0, 0, 0, 0, 0, 5, 1, 2, 3, 4]), group=rng.randrange(ng)))
     for c in confs:
         if c['stopasgroup']:
             c['killasgroup'] = 1          # the configuration parser enforces this
@@ -293,7 +293,8 @@ def random_script(rng, U=2, nprocs=None, maxlen=30, hostile=0.15, shutdown=0.25,
             # pass, nothing else changes - the lifecycle model does not see it
             op['faults'] = {'poll': [4 if poller == 'poll' else rng.choice([4, 9])]}
         ops.append(op)
-    return {'U': U, 'procs': confs, 'groups': groups, 'ops': ops, 'poller': poller}
+    return {'U': U, 'procs': confs, 'groups': groups, 'ops': ops, 'poller': poller,
+            'xml': rng.random() < 0.3}      # requests through the real XML-RPC handler instead of direct calls
 
 
 def canonical(result):
